@@ -373,7 +373,7 @@ def run(ctx):
     front_end_nulls(ctx, R)
 
     # ---- shared clauses ------------------------------------------------------------------
-    refile(ctx, c12, {"C12-R1": "C16-S1", "C12-R2": "C16-S2"}, "C12")
+    refile(ctx, c12, {"C12-R1": "C16-S1", "C12-R2": "C16-S2", "C12-R5": "C16-S7", "C12-R6": "C16-S8"}, "C12")
     refile(ctx, c13, {"C13-R1": "C16-S3"}, "C13")
     refile(ctx, c14, {"C14-R1": "C16-S4", "C14-R5": "C16-S5"}, "C14")
     refile(ctx, c22, {"C22-R1": "C16-S6"}, "C22")
